@@ -13,6 +13,7 @@
 extern const char g_GIT_SHA1[] = "verif-replay";
 extern "C" {
 void* w_vm_new(int ops, long max_runtime_ms, int enable_classname_check);
+void w_vm_delete(void* p);
 void* w_vm_compile(void* p, const char* code, size_t n);
 int w_vm_parse_config(void* p, const char* text, size_t n);
 long w_vm_preprocess(void* p, const char* text, size_t n, char* buf, size_t cap);
@@ -98,6 +99,23 @@ int main(int argc, char** argv)
             int r = w_vm_run_sqf(vm, buf, text.size(), 0);
             printf("RESULT %d STATE %d\n", r, w_vm_state(vm));
         }
+        return 0;
+    }
+    if (op == "iso")
+    {   // iso <q ops> <q pp> <q hex text | -> <q hex config | -> <destroy 0/1> <p pp> <p hex text> <p hex config | ->: Q in one instance, then P in a FRESH instance of the same process
+        if (argc < 10) return 2;
+        if (strcmp(argv[4], "-") || strcmp(argv[5], "-"))
+        {
+            void* vq = w_vm_new(atoi(argv[2]), 0, 1);
+            if (strcmp(argv[5], "-")) { std::string c = unhex(argv[5]); char* b = (char*)malloc(c.size() + 1); memcpy(b, c.data(), c.size()); w_vm_parse_config(vq, b, c.size()); }
+            if (strcmp(argv[4], "-")) { std::string t = unhex(argv[4]); char* b = (char*)malloc(t.size() + 1); memcpy(b, t.data(), t.size()); w_vm_run_sqf(vq, b, t.size(), atoi(argv[3])); }
+            if (atoi(argv[6])) w_vm_delete(vq);
+        }
+        printf("P-BEGIN\n");
+        void* vm = w_vm_new(1023, 0, 1);
+        if (strcmp(argv[9], "-")) { std::string c = unhex(argv[9]); char* b = (char*)malloc(c.size() + 1); memcpy(b, c.data(), c.size()); w_vm_parse_config(vm, b, c.size()); }
+        std::string t = unhex(argv[8]); char* b = (char*)malloc(t.size() + 1); memcpy(b, t.data(), t.size());
+        printf("RESULT %d\n", w_vm_run_sqf(vm, b, t.size(), atoi(argv[7])));
         return 0;
     }
     if (op == "run")
